@@ -536,6 +536,23 @@ impl Server {
             self.wake_client(wakeup)?;
         }
         
+        // One notification is queued per push command, but a push may bring several elements and
+        // elements also arrive from EXEC, from scripts and from wake-ups that found their element
+        // gone. Serve blocked clients, oldest first, for as long as their key holds elements.
+        for (db, key) in self.blocking_manager.keys_with_waiters() {
+            let mut guard = 0;
+            while guard < 10_000
+                && self.blocking_manager.has_blocked_clients(db, &key)
+                && self.storage.llen(db, &key).unwrap_or(0) > 0 {
+                guard += 1;
+                self.blocking_manager.notify_key_ready(db, &key);
+                for wakeup in self.blocking_manager.process_wakeups() {
+                    self.wake_client(wakeup)?;
+                }
+                did_work = true;
+            }
+        }
+        
         Ok(did_work)
     }
     
